@@ -31,7 +31,9 @@ SecretVals == {2, 3}
 VARIABLES m,        \* [Idx -> value]               the signed values
           disc,     \* [Idx -> value or -1]         claimed disclosed value (-1: not in a_disclosed)
           hid,      \* [Idx -> [on, s, rc]]         hidden response: coefficient and size class
-          ecoef, vcoef,   \* "true" | "shift" (true + ORD) | "off"
+          ecoef, vcoef,   \* "true" | "shift" (true + ORD) | "off"; ecoef also "zeroA": the group element A itself is 0 mod n,
+                          \* the absorbing element - every product it enters is 0 whatever the exponents are, so a verifier
+                          \* that went on would reconstruct the commitment 0, which the prover can hash without any secret
           erc,      \* size class of the e response: "in" | "max" | "over" | "neg"
           sess,     \* "same" | "other": proof made for the verifier's (context, nonce, flag) or not
           ndev
@@ -82,7 +84,7 @@ Drop == \E i \in Idx :
    /\ (disc[i] # -1 \/ hid[i].on) /\ Dev
    /\ disc' = [disc EXCEPT ![i] = -1] /\ hid' = [hid EXCEPT ![i] = NoHid]
    /\ UNCHANGED <<ecoef, vcoef, erc, sess>>
-ECoef == \E x \in {"shift", "off"} : ecoef = "true" /\ Dev /\ ecoef' = x /\ UNCHANGED <<disc, hid, vcoef, erc, sess>>
+ECoef == \E x \in {"shift", "off", "zeroA"} : ecoef = "true" /\ Dev /\ ecoef' = x /\ UNCHANGED <<disc, hid, vcoef, erc, sess>>
 VCoef == \E x \in {"shift", "off"} : vcoef = "true" /\ Dev /\ vcoef' = x /\ UNCHANGED <<disc, hid, ecoef, erc, sess>>
 ESize == \E x \in {"max", "over", "neg"} : erc = "in" /\ Dev /\ erc' = x /\ UNCHANGED <<disc, hid, ecoef, vcoef, sess>>
 OtherSession == sess = "same" /\ Dev /\ sess' = "other" /\ UNCHANGED <<disc, hid, ecoef, vcoef, erc>>
@@ -98,8 +100,10 @@ KeySetOK == OverlapRule => D \cap H = {}
 SizesOK == /\ \A i \in H : Small(hid[i].s) /\ hid[i].rc \in {"in", "max"}
            /\ ecoef # "shift" /\ erc \in {"in", "max"}
 Coef(i) == (IF i \in H THEN hid[i].s ELSE 0) + (IF i \in D THEN Rep(disc[i]) ELSE 0) - Rep(m[i])
-EqOK == /\ \A i \in Idx : Coef(i) % ORD = 0
-        /\ ecoef \in {"true", "shift"} /\ vcoef \in {"true", "shift"}
+\* reconstructZ divides by A^(2^(le-1)): for A = 0 mod n there is no inverse and the proof is refused (common.ErrNoModInverse)
+EqOK == IF ecoef = "zeroA" THEN FALSE
+        ELSE /\ \A i \in Idx : Coef(i) % ORD = 0
+             /\ ecoef \in {"true", "shift"} /\ vcoef \in {"true", "shift"}
 VerifyD == KeySetOK /\ SizesOK /\ EqOK /\ sess = "same"
 
 \* ---------------------------------------------------------------- property C01
